@@ -7,6 +7,7 @@
 package main
 
 import (
+	"verifharness/internal/targets"
 	"crypto/tls"
 	"flag"
 	"fmt"
@@ -551,12 +552,13 @@ func h2Handler(w http.ResponseWriter, r *http.Request) {
 func newTargets(h2 bool) *respTargets {
 	t := &respTargets{raw: scentarget.NewRawTarget(), slow: scentarget.NewRawTarget(), grpc: scentarget.NewGrpcTarget()}
 	t.slow.Hold = 3 * time.Second
-	ln, err := net.Listen("tcp", "127.0.0.1:0")
+	// a port that is bound but not listening (held for the life of the process): connecting is refused and nobody
+	// else - another target of this driver, another check running on the machine - can take it meanwhile
+	rp, err := targets.NewRefusedPort()
 	if err != nil {
 		panic(err)
 	}
-	t.dead = ln.Addr().String()
-	ln.Close()
+	t.dead = rp.Addr
 	if h2 {
 		t.h2 = httptest.NewUnstartedServer(http.HandlerFunc(h2Handler))
 		t.h2.EnableHTTP2 = true
